@@ -548,6 +548,24 @@ Proof.
   apply mapM_Forall2 in H. induction H; constructor; auto. apply add_hash_spec. assumption.
 Qed.
 
+(* the two theorems together, for a chain: the suffix is the hash of the content whose data is the dictionary fold *)
+Theorem chain_name_is_hash : forall sec name d below out,
+  chain_for sec name (d :: below) ->
+  build (chain_layer d below) = Ok out ->
+  exists st, chain_sem d below = Ok st /\
+             chain_data d below = Ok (option_map data_of st) /\
+             (forall o, st = Some o -> g_secret o = sec) /\
+             Forall2 hashed_from (opt_list st) out.
+Proof.
+  intros sec name d below out Hc Hb.
+  destruct (accumulate_chain sec name below d Hc) as [H1 H2].
+  destruct (build_name_is_hash _ _ Hb) as [rm [Ha Hf]].
+  rewrite H1 in Ha. destruct (chain_sem d below) as [st| | |] eqn:Es; try discriminate.
+  cbn in Ha. inversion Ha. subst rm. exists st. repeat split; try assumption.
+  - rewrite <- chain_sem_data, Es. reflexivity.
+  - intros o Ho. subst. destruct (H2 o eq_refl) as [Hs _]. exact Hs.
+Qed.
+
 (* C06_invariance: the suffix depends on kind, data, binaryData (and the Secret type) only *)
 Lemma hash_invariance : forall o o',
   g_secret o = g_secret o' -> g_data o = g_data o' -> g_bin o = g_bin o' -> g_type o = g_type o' ->
